@@ -1,5 +1,5 @@
 // C09 conformance harness: Hashtable / OrderedKeysHashtable / OrderedValuesHashtable <int,int> against spec/OrderedMap/MapAbs.tla.
-//   ht replay <behaviours.ndjson> <report.ndjson> <hash 0|1> <prefill P> <slack> [progress file]
+//   ht replay <behaviours.ndjson> <report.ndjson> <hash 0|1> <prefill P> <slack> [progress file [class 0|1|2]]
 //        spec -> code: every input line is one behaviour of MapAbs (list of step records `last`); each call is made on a real
 //        Hashtable<int,int> and after EVERY step the result, the full forward and backward iteration order of both tables and the
 //        observable state (HasData / GetKey / GetValue) of every live iterator are compared with the record.  A property monitor
@@ -32,14 +32,14 @@ enum {O_Put, O_PutPrev, O_PutIfAbsent, O_GetOrPut, O_PutOrRemove, O_PutAtFront, 
       O_GetAndMoveToFront, O_GetAndMoveToBack, O_Remove, O_RemoveGet, O_RemoveFirst, O_RemoveLast,
       O_MoveToFront, O_MoveToBack, O_MoveToBefore, O_MoveToBehind, O_MoveToPosition,
       O_SortByKey, O_SortByValue, O_SortSelf, O_Reposition, O_Swap, O_Clear, O_Destroy, O_AssignFrom, O_AssignTo, O_PutAll, O_MoveToTable,
-      O_RemoveAll, O_Intersect, O_EnsureSize, O_ShrinkToFit,
+      O_RemoveAll, O_Intersect, O_EnsureSize, O_ShrinkToFit, O_SetAutoSort,
       O_Get, O_IndexOfKey, O_IndexOfValue, O_GetKeyAt, O_GetValueAt, O_GetFirstKey, O_GetLastKey, O_GetKeyBefore, O_GetKeyAfter, O_ContainsValue, O_NumItems, O_IsEqualTo,
       O_ItNew, O_ItNewAt, O_ItAdv, O_ItRet, O_ItFlip, O_ItDel, O_ItCopy, NUM_OPS};
 static const char * OPN[NUM_OPS] = {"Put", "PutPrev", "PutIfAbsent", "GetOrPut", "PutOrRemove", "PutAtFront", "PutAtBack", "PutBefore", "PutBehind", "PutAtPosition",
       "GetAndMoveToFront", "GetAndMoveToBack", "Remove", "RemoveGet", "RemoveFirst", "RemoveLast",
       "MoveToFront", "MoveToBack", "MoveToBefore", "MoveToBehind", "MoveToPosition",
       "SortByKey", "SortByValue", "SortSelf", "Reposition", "Swap", "Clear", "Destroy", "AssignFrom", "AssignTo", "PutAll", "MoveToTable",
-      "RemoveAll", "Intersect", "EnsureSize", "ShrinkToFit",
+      "RemoveAll", "Intersect", "EnsureSize", "ShrinkToFit", "SetAutoSort",
       "Get", "IndexOfKey", "IndexOfValue", "GetKeyAt", "GetValueAt", "GetFirstKey", "GetLastKey", "GetKeyBefore", "GetKeyAfter", "ContainsValue", "NumItems", "IsEqualTo",
       "ItNew", "ItNewAt", "ItAdv", "ItRet", "ItFlip", "ItDel", "ItCopy"};
 static int OpByName(const std::string & s) {for (int i=0; i<NUM_OPS; i++) if (s == OPN[i]) return i; return -1;}
@@ -51,6 +51,11 @@ template<class H> static status_t DoReposition(Hashtable<int,int,H> & t, int k) 
 template<class C, class H> static status_t DoReposition(OrderedKeysHashtable<int,int,C,H> & t, int k) {return t.Reposition(k);}
 template<class C, class H> static status_t DoReposition(OrderedValuesHashtable<int,int,C,H> & t, int k) {return t.Reposition(k);}
 
+// SetAutoSortEnabled() exists in the sorting classes only
+template<class H> static void DoSetAutoSort(Hashtable<int,int,H> &, bool, bool) {}
+template<class C, class H> static void DoSetAutoSort(OrderedKeysHashtable<int,int,C,H> & t, bool on, bool sortNow) {t.SetAutoSortEnabled(on, sortNow);}
+template<class C, class H> static void DoSetAutoSort(OrderedValuesHashtable<int,int,C,H> & t, bool on, bool sortNow) {t.SetAutoSortEnabled(on, sortNow);}
+
 struct ItObs {int h, k, v; ItObs() : h(-1), k(0), v(0) {} bool operator==(const ItObs & r) const {return (h == r.h)&&((h != 1)||((k == r.k)&&(v == r.v)));}};
 typedef std::vector<std::pair<int,int> > KV;
 
@@ -59,8 +64,9 @@ template<class TableT, class HashF> struct Rig
    typedef HashtableIterator<int,int,HashF> It;
    TableT * tab[2]; bool blk[2]; It * it[MAXIT]; bool itBwd[MAXIT];
    uint32 P, slack; TableT * tmpl; std::string err;
+   bool autoOn;    // SetAutoSortEnabled state of the table object tab[0] (sorting classes)
 
-   Rig(uint32 p, uint32 s) : P(p), slack(s), tmpl(NULL) {tab[0] = tab[1] = NULL; blk[0] = blk[1] = false; for (int i=0; i<MAXIT; i++) {it[i] = NULL; itBwd[i] = false;}}
+   Rig(uint32 p, uint32 s) : P(p), slack(s), tmpl(NULL), autoOn(true) {tab[0] = tab[1] = NULL; blk[0] = blk[1] = false; for (int i=0; i<MAXIT; i++) {it[i] = NULL; itBwd[i] = false;}}
    void Build()
    {
       tmpl = new TableT;
@@ -68,7 +74,7 @@ template<class TableT, class HashF> struct Rig
       for (uint32 i=0; i<P; i++) (void) tmpl->Put(((int) i)-((int) P), ((int) i)-((int) P));
    }
    void Drop() {for (int i=0; i<MAXIT; i++) {delete it[i]; it[i] = NULL; itBwd[i] = false;} delete tab[0]; delete tab[1]; tab[0] = tab[1] = NULL;}
-   void Reset() {Drop(); tab[0] = new TableT(*tmpl); tab[1] = new TableT; blk[0] = (P > 0); blk[1] = false; err.clear();}
+   void Reset() {Drop(); tab[0] = new TableT(*tmpl); tab[1] = new TableT; blk[0] = (P > 0); blk[1] = false; err.clear(); autoOn = true;}
    uint32 P0() const {return blk[0] ? P : 0;}
 
    // may this call be made in the present block situation?
@@ -121,7 +127,8 @@ template<class TableT, class HashF> struct Rig
          case O_Reposition: return St(DoReposition(t, ka));
          case O_Swap: t.SwapContents(o); std::swap(blk[0], blk[1]); return 0;
          case O_Clear: t.Clear(); blk[0] = false; return 0;
-         case O_Destroy: delete tab[0]; tab[0] = new TableT; blk[0] = false; return 0;
+         case O_Destroy: delete tab[0]; tab[0] = new TableT; blk[0] = false; autoOn = true; return 0;
+         case O_SetAutoSort: DoSetAutoSort(t, a != 0, b != 0); autoOn = (a != 0); return 0;
          case O_AssignFrom: t = o; blk[0] = blk[1]; return 0;
          case O_AssignTo: o = t; blk[1] = blk[0]; return 0;
          case O_PutAll: return t.Put(o).IsOK() ? 1 : NA;
@@ -336,7 +343,7 @@ template<class TableT, class HashF> static int Replay(const char * inFile, const
 static bool RelinkKind(int op, bool sorted)
 {
    if (((op >= O_PutAtFront)&&(op <= O_GetAndMoveToBack))||((op >= O_MoveToFront)&&(op <= O_Reposition))) return true;
-   return (sorted)&&((op <= O_PutOrRemove)||(op == O_PutAll)||(op == O_MoveToTable)||(op == O_AssignFrom)||(op == O_AssignTo));
+   return (sorted)&&((op <= O_PutOrRemove)||(op == O_PutAll)||(op == O_MoveToTable)||(op == O_AssignFrom)||(op == O_AssignTo)||(op == O_SetAutoSort));
 }
 
 static const int PLAIN_OPS[] = {O_Put, O_Put, O_Put, O_PutPrev, O_PutIfAbsent, O_GetOrPut, O_PutOrRemove, O_PutAtFront, O_PutAtBack, O_PutBefore, O_PutBehind, O_PutAtPosition,
@@ -345,11 +352,20 @@ static const int PLAIN_OPS[] = {O_Put, O_Put, O_Put, O_PutPrev, O_PutIfAbsent, O
       O_Get, O_IndexOfKey, O_IndexOfValue, O_GetKeyAt, O_GetValueAt, O_GetFirstKey, O_GetLastKey, O_GetKeyBefore, O_GetKeyAfter, O_ContainsValue, O_NumItems, O_IsEqualTo,
       O_ItNew, O_ItNew, O_ItNewAt, O_ItAdv, O_ItAdv, O_ItAdv, O_ItAdv, O_ItRet, O_ItFlip, O_ItDel, O_ItCopy};
 static const int SORTED_OPS[] = {O_Put, O_Put, O_Put, O_Put, O_PutPrev, O_PutIfAbsent, O_GetOrPut, O_PutOrRemove, O_Remove, O_Remove, O_RemoveGet, O_RemoveFirst, O_RemoveLast,
-      O_SortSelf, O_Reposition, O_Swap, O_Clear, O_Destroy, O_AssignFrom, O_AssignTo, O_PutAll, O_MoveToTable, O_RemoveAll, O_Intersect, O_EnsureSize, O_ShrinkToFit,
+      O_SortSelf, O_Reposition, O_Swap, O_Clear, O_Destroy, O_AssignFrom, O_AssignTo, O_PutAll, O_MoveToTable, O_RemoveAll, O_Intersect, O_EnsureSize, O_EnsureSize, O_ShrinkToFit, O_ShrinkToFit,
+      O_SetAutoSort, O_SetAutoSort, O_MoveToFront, O_MoveToBack, O_MoveToBefore, O_MoveToBehind, O_MoveToPosition, O_PutAtFront,
       O_Get, O_IndexOfKey, O_IndexOfValue, O_GetKeyAt, O_GetValueAt, O_GetFirstKey, O_GetLastKey, O_GetKeyBefore, O_GetKeyAfter, O_ContainsValue, O_NumItems, O_IsEqualTo,
       O_ItNew, O_ItNew, O_ItNewAt, O_ItAdv, O_ItAdv, O_ItAdv, O_ItAdv, O_ItRet, O_ItFlip, O_ItDel, O_ItCopy};
 
-template<class TableT, class HashF> static int Random(const char * outFile, const char * traceFile, uint32 seed, uint32 runs, uint32 nops, bool sorted, uint32 P, uint32 slack, int K, int V, int nIt)
+// is t, without the entry `skip`, sorted by key / by value?
+static bool IsSortedKV(const KV & t, bool byValue, int skip)
+{
+   bool have = false; int last = 0;
+   for (size_t i=0; i<t.size(); i++) {if (t[i].first == skip) continue; const int x = byValue ? t[i].second : t[i].first; if ((have)&&(x < last)) return false; last = x; have = true;}
+   return true;
+}
+
+template<class TableT, class HashF> static int Random(const char * outFile, const char * traceFile, uint32 seed, uint32 runs, uint32 nops, bool sorted, bool byValue, uint32 P, uint32 slack, int K, int V, int nIt)
 {
    FILE * out = fopen(outFile, "w"); FILE * tf = fopen(traceFile, "w");
    if ((!tf)||(!out)) {fprintf(stderr, "cannot open files\n"); return 2;}
@@ -359,7 +375,7 @@ template<class TableT, class HashF> static int Random(const char * outFile, cons
    for (uint32 run=0; run<runs; run++) {
       std::mt19937 gen(seed*1000003u+run*7919u+17u);
       R.Reset(); fprintf(tf, "{\"op\":\"Reset\"}\n"); lines++;
-      Monitor mon; bool monOn = true;
+      Monitor mon; bool monOn = true; KV cur1;     // cur1: contents of the table under test (without the prefill block)
       // each run has its own temperament: how much it likes to grow / shrink / iterate
       const uint32 growBias = gen()%3;
       for (uint32 n=0; n<nops; n++) {
@@ -378,6 +394,7 @@ template<class TableT, class HashF> static int Random(const char * outFile, cons
                case O_MoveToBefore: case O_MoveToBehind: a = k1; b = k2; break;
                case O_MoveToPosition: a = k1; b = pos; break;
                case O_EnsureSize: a = (long)(gen()%(K+2)); b = bit; break;
+               case O_SetAutoSort: a = bit; b = (long)(gen()%2); break;
                case O_ShrinkToFit: a = bit; break;
                case O_IndexOfValue: a = v; b = bit; break;
                case O_GetKeyAt: case O_GetValueAt: a = pos; break;
@@ -389,6 +406,17 @@ template<class TableT, class HashF> static int Random(const char * outFile, cons
                case O_ItCopy: a = slot; b = 1+(long)(gen()%nIt); break;
                default: break; }
             bool ok = R.Applicable(op, a, b, c);
+            if ((sorted)&&(ok)) {
+               // calls whose outcome the header leaves open while the table is not auto-sorting / not sorted are not made (see MapAbs: PutSet, Tight)
+               const bool exists = HasKey(cur1, (int) a); const bool sortedNow = IsSortedKV(cur1, byValue, -1), restSorted = IsSortedKV(cur1, byValue, (int) a);
+               switch(op) {
+                  case O_Put: case O_PutPrev: case O_PutAtFront: ok = R.autoOn ? (exists ? restSorted : sortedNow) : (!exists); break;
+                  case O_PutOrRemove: ok = (b == 0) || (R.autoOn ? (exists ? restSorted : sortedNow) : (!exists)); break;
+                  case O_PutIfAbsent: case O_GetOrPut: ok = exists || (R.autoOn ? sortedNow : true); break;
+                  case O_Reposition: ok = (!exists) || restSorted; break;
+                  case O_Swap: case O_AssignTo: case O_PutAll: ok = R.autoOn && sortedNow; break;
+                  default: break; }
+            }
             if ((op == O_ItNew)||(op == O_ItNewAt)) ok = ok && (R.it[a-1] == NULL);
             if ((op == O_ItAdv)||(op == O_ItRet)||(op == O_ItFlip)||(op == O_ItDel)) ok = ok && (R.it[a-1] != NULL);
             if (op == O_ItCopy) ok = ok && (R.it[a-1] != NULL) && (R.it[b-1] == NULL);
@@ -408,6 +436,7 @@ template<class TableT, class HashF> static int Random(const char * outFile, cons
             if (violated <= 20) {fprintf(out, "%s\n", mj::ToString(rec).c_str()); fflush(out);}
             break;   // the rest of this run is not to be trusted
          }
+         cur1 = t1;
          ItObs obs[MAXIT]; for (int i=0; i<nIt; i++) obs[i] = R.See(i);
          if (monOn) {
             KV aft[3]; aft[1] = t1; aft[2] = t2; std::vector<std::string> mviol;
@@ -443,20 +472,29 @@ int main(int argc, char ** argv)
 {
    CompleteSetupSystem css;
    if ((argc >= 7)&&(!strcmp(argv[1], "replay"))) {
-      const bool bad = atoi(argv[4]) != 0; const uint32 P = (uint32) atol(argv[5]), slack = (uint32) atol(argv[6]); const char * pf = (argc > 7) ? argv[7] : NULL;
-      return bad ? Replay<Hashtable<int,int,BadHash>, BadHash>(argv[2], argv[3], P, slack, pf) : Replay<Hashtable<int,int>, PODHashFunctor<int> >(argv[2], argv[3], P, slack, pf);
+      const bool bad = atoi(argv[4]) != 0; const uint32 P = (uint32) atol(argv[5]), slack = (uint32) atol(argv[6]); const char * pf = (argc > 7) ? argv[7] : NULL; const int cls = (argc > 8) ? atoi(argv[8]) : 0;
+      typedef PODHashFunctor<int> GH0;
+      switch(cls*2+(bad ? 1 : 0)) {
+         case 0: return Replay<Hashtable<int,int>, GH0>(argv[2], argv[3], P, slack, pf);
+         case 1: return Replay<Hashtable<int,int,BadHash>, BadHash>(argv[2], argv[3], P, slack, pf);
+         case 2: return Replay<OrderedKeysHashtable<int,int,CompareFunctor<int>,GH0>, GH0>(argv[2], argv[3], P, slack, pf);
+         case 3: return Replay<OrderedKeysHashtable<int,int,CompareFunctor<int>,BadHash>, BadHash>(argv[2], argv[3], P, slack, pf);
+         case 4: return Replay<OrderedValuesHashtable<int,int,CompareFunctor<int>,GH0>, GH0>(argv[2], argv[3], P, slack, pf);
+         case 5: return Replay<OrderedValuesHashtable<int,int,CompareFunctor<int>,BadHash>, BadHash>(argv[2], argv[3], P, slack, pf);
+      }
+      return 2;
    }
    if ((argc >= 14)&&(!strcmp(argv[1], "random"))) {
       const uint32 seed = (uint32) atol(argv[4]), runs = (uint32) atol(argv[5]), nops = (uint32) atol(argv[6]); const int cls = atoi(argv[7]); const bool bad = atoi(argv[8]) != 0;
       const uint32 P = (uint32) atol(argv[9]), slack = (uint32) atol(argv[10]); const int K = atoi(argv[11]), V = atoi(argv[12]), nIt = muscleMin(atoi(argv[13]), MAXIT);
       typedef PODHashFunctor<int> GH;
       switch(cls*2+(bad ? 1 : 0)) {
-         case 0: return Random<Hashtable<int,int,GH>, GH>(argv[2], argv[3], seed, runs, nops, false, P, slack, K, V, nIt);
-         case 1: return Random<Hashtable<int,int,BadHash>, BadHash>(argv[2], argv[3], seed, runs, nops, false, P, slack, K, V, nIt);
-         case 2: return Random<OrderedKeysHashtable<int,int,CompareFunctor<int>,GH>, GH>(argv[2], argv[3], seed, runs, nops, true, P, slack, K, V, nIt);
-         case 3: return Random<OrderedKeysHashtable<int,int,CompareFunctor<int>,BadHash>, BadHash>(argv[2], argv[3], seed, runs, nops, true, P, slack, K, V, nIt);
-         case 4: return Random<OrderedValuesHashtable<int,int,CompareFunctor<int>,GH>, GH>(argv[2], argv[3], seed, runs, nops, true, P, slack, K, V, nIt);
-         case 5: return Random<OrderedValuesHashtable<int,int,CompareFunctor<int>,BadHash>, BadHash>(argv[2], argv[3], seed, runs, nops, true, P, slack, K, V, nIt);
+         case 0: return Random<Hashtable<int,int,GH>, GH>(argv[2], argv[3], seed, runs, nops, false, false, P, slack, K, V, nIt);
+         case 1: return Random<Hashtable<int,int,BadHash>, BadHash>(argv[2], argv[3], seed, runs, nops, false, false, P, slack, K, V, nIt);
+         case 2: return Random<OrderedKeysHashtable<int,int,CompareFunctor<int>,GH>, GH>(argv[2], argv[3], seed, runs, nops, true, false, P, slack, K, V, nIt);
+         case 3: return Random<OrderedKeysHashtable<int,int,CompareFunctor<int>,BadHash>, BadHash>(argv[2], argv[3], seed, runs, nops, true, false, P, slack, K, V, nIt);
+         case 4: return Random<OrderedValuesHashtable<int,int,CompareFunctor<int>,GH>, GH>(argv[2], argv[3], seed, runs, nops, true, true, P, slack, K, V, nIt);
+         case 5: return Random<OrderedValuesHashtable<int,int,CompareFunctor<int>,BadHash>, BadHash>(argv[2], argv[3], seed, runs, nops, true, true, P, slack, K, V, nIt);
       }
    }
    fprintf(stderr, "usage: ht replay <behaviours> <report> <hash> <prefill> <slack> [progress] | ht random <report> <trace> <seed> <runs> <ops> <class> <hash> <prefill> <slack> <keys> <vals> <iterators>\n");
